@@ -53,6 +53,13 @@ func runBatch(tc http.Handler, ib *idBackend, batch []exchange, concurrent bool)
 	}
 	var wg sync.WaitGroup
 	start := make(chan struct{})
+	canaryInRunOn = false
+	defer func() {
+		canaryInRunOn = true
+		if n := vanguard.VerifPoolCheckReleased(); n > 0 {
+			lateWrites = append(lateWrites, fmt.Sprintf("%d pooled buffer(s) were written to after their release during a concurrent batch", n))
+		}
+	}()
 	for i := range batch {
 		wg.Add(1)
 		go func(i int) {
@@ -136,7 +143,6 @@ func init() {
 	replayers["concurrent.solo"] = func(in any) any {
 		l := rList(in)
 		vanguard.VerifPoolPoison.Store(true)
-		defer vanguard.VerifPoolPoison.Store(false)
 		if rInt(l[0]) < 0 {
 			return runDuplex(rInt(l[1]))
 		}
@@ -148,7 +154,6 @@ func init() {
 	suites["concurrent"] = func(c *ctx) {
 		r := c.r
 		vanguard.VerifPoolPoison.Store(true)
-		defer vanguard.VerifPoolPoison.Store(false)
 		for b := 0; b < c.n/16+1; b++ {
 			seed := int64(r.next() >> 2)
 			cb := runConcurrentBatch(seed)
@@ -158,6 +163,8 @@ func init() {
 			}
 			c.emit(Case{Suite: "pool.trace", In: L{B("concurrent"), seed}, Out: cb.trace, Tags: []string{"pool.trace:concurrent"}, Desc: cb.desc})
 		}
+		// forced schedules: one RPC in trouble while another one holds what it released
+		interleaveCases(c, c.n/4+4)
 		// full-duplex streams: request side and response side driven from different goroutines, with
 		// request-side faults while the response side is active
 		for b := 0; b < c.n/40+1; b++ {
